@@ -11,6 +11,10 @@ from . import interp as I
 NOMODEL = object()
 
 
+class DecTuple:
+    """Marker class for Decimal.as_tuple() results."""
+
+
 def isinstance_(ex, v, cls):
     """z3 Bool of isinstance(v, cls) evaluated on the real class lattice (T-LATTICE)."""
     classes = []
@@ -40,7 +44,7 @@ def isinstance_(ex, v, cls):
 
 
 def _round_half_even_real(t):
-    fl = z3.ToInt(t)
+    fl = I.smart_toint(t)
     diff = t - z3.ToReal(fl)
     return z3.If(diff < z3.RealVal('1/2'), fl,
                  z3.If(diff > z3.RealVal('1/2'), fl + 1,
@@ -152,11 +156,13 @@ def function(ex: I.Executor, f, args, kwargs):
         if isinstance(v, VDec):
             return v
         if isinstance(v, (VInt, VBool)):
-            return VDec(z3.ToReal(I.as_int_term(v)))
+            d = VDec(z3.ToReal(I.as_int_term(v)))
+            d.exponent = 0          # Decimal(int) has exponent 0
+            return d
         if isinstance(v, VFloat):
             if ex.branch(z3.Not(v.finite())):
                 raise OutOfSubset('Decimal(nan/inf)')
-            return VDec(v.val)
+            return VDec(v.val, v.neg)
         c = v.conc
         if c is not NOTCONC and isinstance(c, str):
             try:
@@ -187,6 +193,19 @@ def function(ex: I.Executor, f, args, kwargs):
         if r is not NOMODEL:
             return r
         raise OutOfSubset(f'{name} of {v!r}')
+    import typing
+    if f is typing.cast:
+        return args[1]
+    if getattr(f, '__self__', None) is decimal.Decimal and name == 'from_float':
+        v = args[0]
+        if isinstance(v, (VInt, VBool)):
+            return VDec(z3.ToReal(I.as_int_term(v)))
+        if isinstance(v, VFloat):
+            if ex.branch(z3.Not(v.finite())):
+                raise OutOfSubset('Decimal.from_float(nan/inf)')
+            return VDec(v.val, v.neg)
+    if f is decimal.localcontext:
+        return VObj(I.DecimalLocalContext, {'prec': VInt(I.PREC)}, fresh=True)
     if f is math.floor or f is math.ceil:
         v = args[0]
         r = I.as_real_term(v)
@@ -198,7 +217,7 @@ def function(ex: I.Executor, f, args, kwargs):
             r = v.val
         if r is None:
             raise OutOfSubset(f'{name} of {v!r}')
-        fl = z3.ToInt(r)
+        fl = I.smart_toint(r)
         return VInt(fl if f is math.floor else z3.If(z3.ToReal(fl) == r, fl, fl + 1))
     if f is math.copysign:
         a, b = ex.to_float(args[0]), ex.to_float(args[1])
@@ -217,6 +236,25 @@ def function(ex: I.Executor, f, args, kwargs):
                 if ex.branch(v.inf != 0):
                     ex.raise_py(OverflowError)
                 return VInt(_round_half_even_real(v.val))
+        nd = args[1].conc
+        if nd is NOTCONC or not isinstance(nd, int):
+            raise OutOfSubset('round with symbolic ndigits')
+        if isinstance(v, (VInt, VBool)):
+            t = I.as_int_term(v)
+            if nd >= 0:
+                return VInt(t)
+            m = 10 ** (-nd)
+            return VInt(_round_half_even_real(z3.ToReal(t) / m) * m)
+        if isinstance(v, VDec):
+            # Decimal.__round__(n) = quantize(Decimal('1E-n'), ROUND_HALF_EVEN)
+            return quantize(ex, v, decimal.Decimal(1).scaleb(-nd), decimal.ROUND_HALF_EVEN)
+        if isinstance(v, VFloat):
+            if ex.branch(z3.Not(v.finite())):
+                return v
+            if nd == 0:
+                return VFloat(False, 0, z3.ToReal(_round_half_even_real(v.val)), v.neg)
+            ex.note('A-FP: round(float, n != 0) is uninterpreted')
+            return VFloat(False, 0, ex.fp_unmodelled('round%d' % nd, v.val), v.neg)
         raise OutOfSubset('round with ndigits')
     if f is min or f is max:
         items = args if len(args) > 1 else ex.iter_concrete(args[0])
@@ -385,6 +423,26 @@ def method(ex: I.Executor, recv: Val, name: str, args, kwargs):
             if q is NOTCONC or rmode is NOTCONC:
                 raise OutOfSubset('quantize with symbolic exponent/rounding')
             return quantize(ex, recv, decimal.Decimal(q), rmode)
+        if name == 'adjusted':
+            return VInt(ex.fresh('adjusted', z3.IntSort()))      # opaque (only used to size a context)
+        if name == 'as_tuple':
+            # exponent e of the decimal: value * 10**(-e) is an integer.  Facts are instantiated
+            # for the scales -8..8 (enough for the concrete precisions used in contracts).
+            if getattr(recv, 'exponent', None) is not None:
+                return VObj(DecTuple, {'exponent': VInt(recv.exponent), 'sign': VInt(z3.If(recv.neg, 1, 0))}, fresh=True)
+            e = ex.fresh('exponent', z3.IntSort())
+            for k in range(-8, 9):
+                sc = z3.RealVal(10 ** k) if k >= 0 else z3.RealVal(1) / z3.RealVal(10 ** -k)
+                x = recv.t * sc
+                ex.path.pc.append(z3.Implies(z3.IntVal(k) >= -e, z3.ToReal(z3.ToInt(x)) == x))
+            return VObj(DecTuple, {'exponent': VInt(e), 'sign': VInt(z3.If(recv.neg, 1, 0))}, fresh=True)
+        if name == 'scaleb':
+            k = args[0].conc
+            if k is NOTCONC:
+                raise OutOfSubset('scaleb with a symbolic exponent')
+            c = recv.conc
+            if c is not NOTCONC:
+                return lift(c.scaleb(k))
         if name == '__round__' and not args:
             return VInt(_round_half_even_real(recv.t))
     if isinstance(recv, VFloat):
@@ -401,17 +459,22 @@ def quantize(ex, v: VDec, q: decimal.Decimal, rmode) -> VDec:
     """Decimal.quantize for an exponent given by the concrete q (T-DEP: decimal docs).
     InvalidOperation if the coefficient would exceed the precision."""
     exp = q.as_tuple().exponent
-    scale = z3.RealVal(10) ** (-exp) if exp <= 0 else z3.RealVal(1) / (z3.RealVal(10) ** exp)
+    scale = z3.RealVal(10 ** (-exp)) if exp <= 0 else z3.RealVal(1) / z3.RealVal(10 ** exp)
     x = v.t * scale
-    fl = z3.ToInt(x)
+    fl = I.smart_toint(x)
     frac = x - z3.ToReal(fl)
     half = z3.RealVal('1/2')
     if rmode == decimal.ROUND_HALF_UP:       # ties away from zero
-        n = z3.If(x >= 0, z3.ToInt(x + half), -z3.ToInt(-x + half))
+        if ex.branch(x >= 0):
+            n = I.smart_toint(x + half)
+        else:
+            n = -I.smart_toint(-x + half)
     elif rmode == decimal.ROUND_HALF_DOWN:   # ties toward zero
-        up = z3.If(frac > half, fl + 1, fl)
-        upn = z3.If(-x - z3.ToReal(z3.ToInt(-x)) > half, z3.ToInt(-x) + 1, z3.ToInt(-x))
-        n = z3.If(x >= 0, up, -upn)
+        if ex.branch(x >= 0):
+            n = z3.If(frac > half, fl + 1, fl)
+        else:
+            fn = I.smart_toint(-x)
+            n = -z3.If(-x - z3.ToReal(fn) > half, fn + 1, fn)
     elif rmode == decimal.ROUND_HALF_EVEN:
         n = _round_half_even_real(x)
     elif rmode == decimal.ROUND_FLOOR:
@@ -424,9 +487,9 @@ def quantize(ex, v: VDec, q: decimal.Decimal, rmode) -> VDec:
         n = z3.If(frac == 0, fl, z3.If(x >= 0, fl + 1, fl))
     else:
         raise OutOfSubset(f'rounding mode {rmode}')
-    if ex.branch(z3.Or(n >= 10 ** I.PREC, n <= -(10 ** I.PREC))):
+    if not ex.prec_wide and ex.branch(z3.Or(n >= 10 ** I.PREC, n <= -(10 ** I.PREC))):
         ex.raise_py(decimal.InvalidOperation)
-    return VDec(z3.ToReal(n) / scale)
+    return VDec(z3.ToReal(n) / scale, v.neg)     # quantize keeps the sign of the operand
 
 
 def str_method(ex, s: VStr, name, args, kwargs):
